@@ -527,6 +527,10 @@ where
     #[cfg_attr(feature = "tracing", tracing::instrument(name = "Connection::event_loop", skip(self), fields(container_id = %self.connection.local_open().container_id)))]
     async fn event_loop(mut self, tx: oneshot::Sender<Result<(), Error>>) {
         let mut outcome = Ok(());
+        // Once the session-to-connection channel is closed and drained, `recv()` returns `None`
+        // immediately; polling it again would turn this loop into a busy loop until the
+        // remote Close arrives
+        let mut session_frames_open = true;
         loop {
             let result = tokio::select! {
                 _ = self.heartbeat.next() => self.on_heartbeat().await,
@@ -607,13 +611,14 @@ where
                         }
                     }
                 },
-                frame = self.outgoing_session_frames.recv() => {
+                frame = self.outgoing_session_frames.recv(), if session_frames_open => {
                     match frame {
                         Some(frame) => self.on_outgoing_session_frames(frame).await,
                         None => {
                             // Upon closing, the outgoing_session_frames channel will be closed
                             // first while the connection may still be waiting for remote
                             // close frame.
+                            session_frames_open = false;
                             Ok(Running::Continue)
                         }
                     }
